@@ -80,6 +80,23 @@ func step(spec val.V, built interface{}, key string) (val.V, interface{}, string
 			return e, rv.Interface(), "ok"
 		}
 		return val.V{}, nil, "null"
+	case "estruct":
+		o, _ := built.(val.Outer)
+		switch key {
+		case "City", "Floor", "Name", "Age":
+			e, ok := spec.Get(key)
+			if !ok {
+				if key == "City" || key == "Name" {
+					e = val.Str("")
+				} else {
+					e = val.Int("int", 0)
+				}
+			}
+			return e, reflect.ValueOf(o).FieldByName(key).Interface(), "ok"
+		case "Inner":
+			return val.V{}, nil, "unspec"
+		}
+		return val.V{}, nil, "error"
 	case "struct":
 		st, _ := built.(val.St)
 		switch key {
@@ -188,7 +205,7 @@ var c16Path = core.Mon(c16, "lookup", func(w *core.W, c *PathCase) {
 		spec, built, st = step(spec, built, g.Key)
 		status = st
 		if st == "ok" {
-			if pk == "struct" {
+			if pk == "struct" || pk == "estruct" {
 				w.Count("struct_fields")
 			}
 			if strings.HasPrefix(pk, "maps") && pk != "maps" && (spec.I == 0 && spec.S == "" && !spec.B && spec.U == 0) {
@@ -316,6 +333,8 @@ func c16Data(r *rand.Rand) val.V {
 		{K: "st", V: val.Struct(val.KV{K: "A", V: val.Int("int", int64(r.Intn(3)))}, val.KV{K: "S", V: val.Str([]string{"", "s"}[r.Intn(2)])}, val.KV{K: "M", V: inner(1)},
 			val.KV{K: "P", V: val.PStruct(val.KV{K: "A", V: val.Int("int", 5)})}, val.KV{K: "Any", V: val.RandScalar(r)}, val.KV{K: "priv", V: val.Int("int", 1)})},
 		{K: "st0", V: val.Struct()},
+		{K: "es", V: val.V{K: "estruct", M: []val.KV{{K: "City", V: val.Str("Oslo")}, {K: "Floor", V: val.Int("int", int64(r.Intn(9)))}, {K: "Name", V: val.Str("n")}, {K: "Age", V: val.Int("int", 30)}}}},
+		{K: "wrap", V: val.Map(val.KV{K: "p", V: val.V{K: "estruct", M: []val.KV{{K: "City", V: val.Str("Rome")}, {K: "Name", V: val.Str("w")}}}})},
 		{K: "k", V: val.Map(val.KV{K: "k", V: val.Map(val.KV{K: "k", V: val.Map(val.KV{K: "k", V: val.RandScalar(r)}, val.KV{K: "z", V: val.Nil()})})})},
 		{K: "np", V: val.V{K: "nilptr"}}, {K: "nps", V: val.V{K: "nilpstruct"}}, {K: "z", V: val.Nil()},
 		{K: "len", V: val.Int("int", 3)}, {K: "max", V: val.Str("shadow")}, {K: "now", V: val.Map(val.KV{K: "k", V: val.Int("int", 1)})},
@@ -327,7 +346,7 @@ func c16Data(r *rand.Rand) val.V {
 	return val.Map(kv...)
 }
 
-var c16Keys = []string{"a", "b", "c", "k", "z", "name", "x1", "len", "max", "now", "A", "S", "F", "M", "P", "Any", "Nil", "N", "T", "priv", "Zz", "missing", "tm", "st", "np", "$v"}
+var c16Keys = []string{"City", "Floor", "Name", "Age", "p", "a", "b", "c", "k", "z", "name", "x1", "len", "max", "now", "A", "S", "F", "M", "P", "Any", "Nil", "N", "T", "priv", "Zz", "missing", "tm", "st", "np", "$v"}
 
 func init() { c16.Run = runC16 }
 
